@@ -131,7 +131,38 @@ class Outcome:
     tb: str = ""
 
 
+class _CaseTimeout(BaseException):
+    pass
+
+
+CASE_TIMEOUT_S = int(os.environ.get("VERIF_CASE_TIMEOUT", "120"))
+
+
+def _on_alarm(signum, frame):
+    raise _CaseTimeout()
+
+
 def evaluate(sub: SubCheck, recipe) -> Outcome:
+    """One case.  A hard per-case wall limit (SIGALRM, main thread of the worker) turns a case that does not come back into a
+    counted rejection ("inconclusive"), never into a violation and never into a check that hangs on a broken tree."""
+    import signal
+    import threading
+
+    use_alarm = CASE_TIMEOUT_S > 0 and threading.current_thread() is threading.main_thread() and hasattr(signal, "SIGALRM")
+    if use_alarm:
+        old = signal.signal(signal.SIGALRM, _on_alarm)
+        signal.alarm(CASE_TIMEOUT_S)
+    try:
+        return _evaluate(sub, recipe)
+    except _CaseTimeout:
+        return Outcome("reject", reason=f"case exceeded {CASE_TIMEOUT_S}s wall (inconclusive)")
+    finally:
+        if use_alarm:
+            signal.alarm(0)
+            signal.signal(signal.SIGALRM, old)
+
+
+def _evaluate(sub: SubCheck, recipe) -> Outcome:
     try:
         labels = sub.oracle(recipe) or {}
         return Outcome("ok", labels=labels)
@@ -140,7 +171,7 @@ def evaluate(sub: SubCheck, recipe) -> Outcome:
     except Violation as v:
         msg = str(v)
         return Outcome("violation", msg=msg, bucket=f"{sub.name}|violation|{_norm_msg(msg)}")
-    except (KeyboardInterrupt, SystemExit, MemoryError):
+    except (KeyboardInterrupt, SystemExit, MemoryError, _CaseTimeout):
         raise
     except BaseException as e:  # noqa
         kind, where = classify_exception(e)
@@ -352,10 +383,16 @@ def run_task(prop_id: str, sub_name: str, shard: int, nshards: int, tier: str, b
             st["harness"].append({"msg": f"hypothesis: {type(e).__name__}: {e}", "tb": "", "recipe": None})
 
     # minimise one representative per bucket
-    calls, secs = (250, 30.0) if tier == "quick" else (1500, 240.0)
+    # (bounded per bucket AND per task: a broken tree can produce hundreds of buckets, and a check must fail fast then;
+    #  buckets beyond the budget keep their unminimised recipe, which replays just the same)
+    calls, secs, total_s = (250, 30.0, 90.0) if tier == "quick" else (1500, 240.0, 900.0)
+    tmin0 = time.time()
     for bucket, b in st["failures"].items():
+        left = total_s - (time.time() - tmin0)
+        if left <= 1.0:
+            break
         try:
-            small, _ = minimise(sub, b["recipe"], bucket, max_calls=calls, max_s=secs)
+            small, _ = minimise(sub, b["recipe"], bucket, max_calls=calls, max_s=min(secs, left))
             out = evaluate(sub, small)
             if out.status in ("violation", "crash"):
                 b["recipe"], b["msg"], b["tb"] = small, out.msg, out.tb
